@@ -73,6 +73,66 @@ theorem monotone_compareLists (cfg : Cfg) (f : γ → Task → M Value) (d : Nat
       mono_all hmono
       all_goals exact ih ys
 
+@[partial_fixpoint_monotone]
+theorem monotone_objectMember (f : γ → Task → M Value) (env : EId) (d : Nat) (layer : Layer) (m : Members)
+    (hmono : monotone f) : monotone (fun x => objectMember (f x) env d layer m) := by
+  unfold objectMember
+  mono_all hmono
+
+@[partial_fixpoint_monotone]
+theorem monotone_sliceArg (f : γ → Task → M Value) (env : EId) (d : Nat) (x : OptExpr)
+    (hmono : monotone f) : monotone (fun y => sliceArg (f y) env d x) := by
+  unfold sliceArg
+  mono_all hmono
+
+@[partial_fixpoint_monotone]
+theorem monotone_std_length (f : γ → Task → M Value) (t : TId) (d1 : Nat)
+    (hmono : monotone f) : monotone (fun x => std_length (f x) t d1) := by
+  unfold std_length
+  mono_all hmono
+
+@[partial_fixpoint_monotone]
+theorem monotone_std_type (f : γ → Task → M Value) (t : TId) (d1 : Nat)
+    (hmono : monotone f) : monotone (fun x => std_type (f x) t d1) := by
+  unfold std_type
+  mono_all hmono
+
+@[partial_fixpoint_monotone]
+theorem monotone_std_trace (f : γ → Task → M Value) (t0 t1 : TId) (d1 : Nat)
+    (hmono : monotone f) : monotone (fun x => std_trace (f x) t0 t1 d1) := by
+  unfold std_trace
+  mono_all hmono
+
+@[partial_fixpoint_monotone]
+theorem monotone_std_objectHasEx (f : γ → Task → M Value) (t0 t1 t2 : TId) (d1 : Nat)
+    (hmono : monotone f) : monotone (fun x => std_objectHasEx (f x) t0 t1 t2 d1) := by
+  unfold std_objectHasEx
+  mono_all hmono
+
+@[partial_fixpoint_monotone]
+theorem monotone_std_objectFieldsEx (f : γ → Task → M Value) (t0 t1 : TId) (d1 : Nat)
+    (hmono : monotone f) : monotone (fun x => std_objectFieldsEx (f x) t0 t1 d1) := by
+  unfold std_objectFieldsEx
+  mono_all hmono
+
+@[partial_fixpoint_monotone]
+theorem monotone_std_map (f : γ → Task → M Value) (t0 t1 : TId) (d1 : Nat)
+    (hmono : monotone f) : monotone (fun x => std_map (f x) t0 t1 d1) := by
+  unfold std_map
+  mono_all hmono
+
+@[partial_fixpoint_monotone]
+theorem monotone_std_makeArray (f : γ → Task → M Value) (t0 t1 : TId) (d1 : Nat)
+    (hmono : monotone f) : monotone (fun x => std_makeArray (f x) t0 t1 d1) := by
+  unfold std_makeArray
+  mono_all hmono
+
+@[partial_fixpoint_monotone]
+theorem monotone_builtinCall (f : γ → Task → M Value) (b : Builtin) (ts : List TId) (d1 : Nat)
+    (hmono : monotone f) : monotone (fun x => builtinCall (f x) b ts d1) := by
+  unfold builtinCall
+  mono_all hmono
+
 theorem monotone_step (cfg : Cfg) (f : γ → Task → M Value) (t : Task)
     (hmono : monotone f) : monotone (fun x => step cfg (f x) t) := by
   unfold step
